@@ -43,4 +43,27 @@ def render(rdflib) -> str:
     out.append("Definition py_isspace_chars : list N := [" + "; ".join(f"{c}%N" for c in isp) + "].")
     out.append(f"Definition nt_bufsiz : N := {int(ntriples.bufsiz)}%N.")
     out.append("Definition nt_validate : bool := " + ("true" if ntriples.validate else "false") + ".")
+    from rdflib.plugins.parsers import notation3
+
+    out.append("(* rdflib.plugins.parsers.notation3._uri_parts: pattern and flags (re.S) *)")
+    out.append(f"Definition uri_parts_src : list N := {_cs(notation3._uri_parts.pattern)}.")
+    out.append("Definition uri_parts_dotall : bool := " + ("true" if notation3._uri_parts.flags & re.S else "false") + ".")
+    # behaviour of SinkParser.strconst on backslash + one ASCII letter (the two string constants are inline in the source)
+    from rdflib import Graph as _G
+    sp = notation3.SinkParser(notation3.RDFSink(_G()), baseURI="http://e/", turtle=True)
+    pairs = []
+    for c in range(128):
+        if chr(c) in "uU":
+            continue
+        try:
+            j, v = sp.strconst("\\" + chr(c) + '"', 0, '"')
+            if j == 3 and len(v) == 1:
+                pairs.append((c, ord(v)))
+        except Exception:  # noqa: BLE001
+            pass
+    out.append("(* SinkParser.strconst: backslash + letter -> character (probed for every ASCII letter but u, U) *)")
+    out.append("Definition n3_echar_table : list (N * N) := [" + "; ".join(f"({a}%N, {b}%N)" for a, b in pairs) + "].")
+    out.append(f"Definition n3_interesting_src : list N := {_cs(notation3.interesting.pattern)}.")
+    out.append(f"Definition n3_unicodeEscape4_src : list N := {_cs(notation3.unicodeEscape4.pattern)}.")
+    out.append(f"Definition n3_unicodeEscape8_src : list N := {_cs(notation3.unicodeEscape8.pattern)}.")
     return "\n".join(out) + "\n"
